@@ -118,3 +118,6 @@ Fixpoint read_blocks_fuel (fuel : nat) (t : nat) (data : str) (counts : list nat
            | RnShort => None
            end
   end.
+
+(* The buffer limit (bufio.MaxScanTokenSize, ErrTooLong) is modelled separately in Kit/ScanLim.v ([scan_lim]); within the
+   bound stated there [scan_lim] delivers exactly [scan]'s tokens (Proofs/ScanLimProofs.v). *)
